@@ -919,6 +919,14 @@ def check(repo):
                         r7.ok({"scheme": s.name, "method": mname, "primitive": t[1], "line": getattr(c, "lineno", 0)})
     r7.require(n_keyed >= 15, schemes[0].method("_Trap"), "keyed derivations floor", "only %d keyed label derivations found (expected >= 15)" % n_keyed)
 
+    # ------------------------------------------------------------------ R2.10 over-long keywords are refused, not cut down
+    r10 = Rule("R2.10", "Bitset refuses a value wider than its field: SSE-1 / SSE-2 rely on it to refuse keywords longer than param_l instead of truncating them onto a stored keyword")
+    rules.append(r10)
+    from .c08 import bitset_width_checked
+    bi = repo.func("toolkit/bits.py", "Bitset.__init__")
+    okb, whyb = bitset_width_checked(bi)
+    r10.require(okb, bi, "Bitset width check", "Bitset.__init__ no longer refuses a value wider than the explicit length (%s): a keyword longer than param_l is cut down to its last "
+                "param_l bytes, so a search for an absent over-long keyword returns the postings of the stored keyword it ends with" % whyb)
     # ------------------------------------------------------------------ R2.9 what a search collects may be nothing
     r9 = Rule("R2.9", "a local list that stays empty when nothing is found is not indexed unguarded")
     rules.append(r9)
